@@ -598,9 +598,56 @@ def array_shape_table(ctx, res):
     # the per-dimension loop `for i, dim in enumerate(<value shape>)` whose
     # body reads `item = <declared shape>[i]`: in validate itself or in a
     # module-level helper it calls
+    def value_shape_exprs(f):
+        """texts that denote the shape of the value being validated"""
+        vs = set()
+        me = f.args.args[0].arg if f.args.args else "self"
+
+        def of_value(a):
+            return isinstance(a, ast.Attribute) and a.attr == "shape" \
+                and norm(a.value) != me
+        for a in ast.walk(f):
+            if of_value(a):
+                vs.add(norm(a))
+            if isinstance(a, ast.Assign) and of_value(a.value) \
+                    and isinstance(a.targets[0], ast.Name):
+                vs.add(a.targets[0].id)
+        return vs
+
     def dim_loops(f):
         out = []
         for s_ in ast.walk(f):
+            # `for item, dim in zip(<declared shape>, <value shape>)` is the
+            # same loop: rewritten to the enumerate spelling
+            if isinstance(s_, ast.For) and isinstance(s_.target, ast.Tuple) \
+                    and len(s_.target.elts) == 2 \
+                    and isinstance(s_.iter, ast.Call) \
+                    and norm(s_.iter.func) == "zip" \
+                    and len(s_.iter.args) == 2:
+                vs = value_shape_exprs(f)
+                a0, a1 = s_.iter.args
+                t0, t1 = s_.target.elts
+                if norm(a1) in vs and norm(a0) not in vs:
+                    decl, val, itemt, dimt = a0, a1, t0, t1
+                elif norm(a0) in vs and norm(a1) not in vs:
+                    decl, val, itemt, dimt = a1, a0, t1, t0
+                else:
+                    continue
+                if not (isinstance(itemt, ast.Name) and isinstance(dimt, ast.Name)):
+                    continue
+                new = ast.For(
+                    target=ast.Tuple([ast.Name("__i", ast.Store()), dimt],
+                                     ast.Store()),
+                    iter=ast.Call(ast.Name("enumerate", ast.Load()), [val], []),
+                    body=[ast.Assign([ast.Name(itemt.id, ast.Store())],
+                                     ast.Subscript(decl, ast.Name("__i", ast.Load()),
+                                                   ast.Load()))] + list(s_.body),
+                    orelse=s_.orelse)
+                ast.copy_location(new, s_)
+                ast.fix_missing_locations(new)
+                new._orig = s_
+                out.append(new)
+                continue
             if isinstance(s_, ast.For) and isinstance(s_.target, ast.Tuple) \
                     and len(s_.target.elts) == 2 \
                     and "enumerate" in norm(s_.iter):
@@ -622,6 +669,48 @@ def array_shape_table(ctx, res):
         raise AnalysisError(f"AbstractArray.validate: per-dimension loop "
                             f"({len(cands)} candidates)")
     host, loop = cands[0]
+    # the number of axes: the loop runs only when the value has exactly as
+    # many dimensions as the declared shape (a zip/enumerate over shapes of
+    # different lengths silently ignores the surplus axes)
+    orig = getattr(loop, "_orig", loop)
+    declt = valt = None
+    for a in loop.body:
+        if isinstance(a, ast.Assign) and isinstance(a.value, ast.Subscript) \
+                and norm(a.value.slice) == norm(loop.target.elts[0]):
+            declt = norm(a.value.value)
+    if isinstance(loop.iter, ast.Call) and loop.iter.args:
+        valt = norm(loop.iter.args[0])
+
+    def is_rank_test(t, want_eq):
+        if not (isinstance(t, ast.Compare) and len(t.ops) == 1
+                and isinstance(t.ops[0], ast.Eq if want_eq else ast.NotEq)):
+            return False
+        pair = {norm(t.left), norm(t.comparators[0])}
+        return pair == {f"len({declt})", f"len({valt})"}
+
+    def find_parent(f, target):
+        for n in ast.walk(f):
+            for fld in ("body", "orelse"):
+                lst = getattr(n, fld, None)
+                if isinstance(lst, list) and target in lst:
+                    return n, lst
+        return None, None
+    par, lst = find_parent(host, orig)
+    guarded = isinstance(par, ast.If) and lst is par.body \
+        and is_rank_test(par.test, True)
+    if not guarded and lst is not None:
+        for prev in lst[:lst.index(orig)]:
+            if isinstance(prev, ast.If) and is_rank_test(prev.test, False) \
+                    and prev.body and isinstance(
+                        prev.body[-1], (ast.Raise, ast.Return, ast.Expr)):
+                guarded = True
+    res.instance("AbstractArray.validate:rank", mod.loc(orig),
+                 declared=declt, value=valt)
+    res.oblige(guarded, "AbstractArray.validate:rank-guard", mod.loc(orig),
+               f"the per-dimension loop over `{declt}` / `{valt}` is not "
+               f"guarded by `len({declt}) == len({valt})`: a value with more "
+               f"(or fewer) axes than the declared shape has its surplus axes "
+               f"ignored and is stored")
     idx, dimv = [norm(t) for t in loop.target.elts]
     itemv = None
     for a in loop.body:
